@@ -565,7 +565,7 @@ theorem inv2_step {s : State} (h2 : Inv2 s) (op : Op) (hop : op.isPoolSend = fal
     exact ⟨h2.prev.prevNodup, h2.prev.tmNodup, h2.prev.sync, h2.prev.hasRec⟩
   | stake h m signer => exact h2.prev.of_frame (frame_step s _ (by intros; simp) (by intros; simp)) (stable_step h2.inv _ (by intros; simp)).keeps
   | beginUnstake a signer => exact h2.prev.of_frame (frame_step s _ (by intros; simp) (by intros; simp)) (stable_step h2.inv _ (by intros; simp)).keeps
-  | unjail h t now a signer => exact h2.prev.of_frame (frame_step s _ (by intros; simp) (by intros; simp)) (stable_step h2.inv _ (by intros; simp)).keeps
+  | unjail h t a signer => exact h2.prev.of_frame (frame_step s _ (by intros; simp) (by intros; simp)) (stable_step h2.inv _ (by intros; simp)).keeps
   | burn a amount => exact h2.prev.of_frame (frame_step s _ (by intros; simp) (by intros; simp)) (stable_step h2.inv _ (by intros; simp)).keeps
   | beginBlock h t votes evs => exact h2.prev.of_frame (frame_step s _ (by intros; simp) (by intros; simp)) (stable_step h2.inv _ (by intros; simp)).keeps
   | credit a d => exact h2.prev.of_frame (frame_step s _ (by intros; simp) (by intros; simp)) (stable_step h2.inv _ (by intros; simp)).keeps
